@@ -17,9 +17,10 @@ type bind struct {
 }
 
 type addrVar struct {
-	name string
-	addr T
-	ty   types.Type
+	name  string
+	addr  T
+	ty    types.Type
+	space string // "L" when the variable's cell is a non-escaping local
 }
 
 type Env struct {
@@ -200,7 +201,11 @@ func (v *fnVC) tr(e Expr, env *Env) (T, types.Type) {
 		}
 		for _, av := range env.addrVars {
 			if av.name == x.Name {
-				return v.loadAt(av.addr, av.ty, v.snapshot(env)), av.ty
+				save := v.space
+				v.space = av.space
+				r := v.loadAt(av.addr, av.ty, v.snapshot(env))
+				v.space = save
+				return r, av.ty
 			}
 		}
 		if env.pkg != nil {
@@ -493,6 +498,7 @@ func (v *fnVC) trAddr(e Expr, env *Env) (T, types.Type, bool) {
 		for _, av := range env.addrVars {
 			if av.name == x.Name {
 				if _, shadow := env.vars[x.Name]; !shadow {
+					v.addrSpace = av.space
 					return av.addr, av.ty, true
 				}
 			}
@@ -501,6 +507,7 @@ func (v *fnVC) trAddr(e Expr, env *Env) (T, types.Type, bool) {
 		a, aty := v.tr(x.X, env)
 		if sl, ok := aty.Underlying().(*types.Slice); ok {
 			i, _ := v.trAs(x.I, env, types.Typ[types.Int])
+			v.addrSpace = ""
 			return v.elemAddr(app("sbase", a), app("+", app("soff", a), i)), sl.Elem(), true
 		}
 	case *Select:
@@ -516,6 +523,7 @@ func (v *fnVC) trAddr(e Expr, env *Env) (T, types.Type, bool) {
 		if pt, ok := bty.Underlying().(*types.Pointer); ok {
 			if n, st, ok := v.isModStruct(pt.Elem()); ok {
 				if f, fty := findField(st, x.Field); f != "" {
+					v.addrSpace = ""
 					return v.fieldAddr(n, f, base), fty, true
 				}
 			}
@@ -525,8 +533,13 @@ func (v *fnVC) trAddr(e Expr, env *Env) (T, types.Type, bool) {
 }
 
 func (v *fnVC) trSelect(x *Select, env *Env) (T, types.Type) {
+	v.addrSpace = ""
 	if addr, ty, ok := v.trAddr(x, env); ok {
-		return v.loadAt(addr, ty, v.snapshot(env)), ty
+		save := v.space
+		v.space = v.addrSpace
+		r := v.loadAt(addr, ty, v.snapshot(env))
+		v.space = save
+		return r, ty
 	}
 	base, bty := v.tr(x.X, env)
 	// pointer to module struct: load field
@@ -703,19 +716,29 @@ func (v *fnVC) trCall(x *CallE, env *Env) (T, types.Type) {
 		return fmt.Sprintf("((_ to_fp 11 53) RNE %s.0)", new2pow(k)), types.Typ[types.Float64]
 	case "fresh": // fresh(x): not allocated when the function (or the callee, at a call site) started
 		a, ty := v.tr(x.Args[0], env)
-		ref := a
-		switch ty.Underlying().(type) {
-		case *types.Interface:
-			ref = app("ipay", a)
-		case *types.Slice:
-			ref = app("sbase", a)
-		}
 		base := env.allocEntry
 		if base == "" {
 			v.memSrt[allocMem] = "Bool"
 			base = v.mem0(allocMem)
 		}
-		return and(not(eq(ref, "0")), not(sel(base, ref))), types.Typ[types.Bool]
+		fr := func(ref T) T { return and(not(eq(ref, "0")), not(sel(base, ref)), eq(app("root", ref), ref)) }
+		switch ty.Underlying().(type) {
+		case *types.Interface:
+			// a sub-config travels as a boxed cfgSub struct: the fresh object is the *Config it holds
+			res := implies(app("isptrtag", app("itag", a)), fr(app("ipay", a)))
+			if pkg := v.e.typesPkg(modPrefix); pkg != nil {
+				if obj := pkg.Scope().Lookup("cfgSub"); obj != nil {
+					subN, _, _ := v.isModStruct(obj.Type())
+					tag := intLit(int64(v.P.tag(obj.Type())))
+					c := app(structName(subN)+"_c", app("un"+v.boxFn(obj.Type()), app("ipay", a)))
+					res = ite(eq(app("itag", a), tag), fr(c), res)
+				}
+			}
+			return and(not(eq(a, "(mkI 0 0)")), res), types.Typ[types.Bool]
+		case *types.Slice:
+			return fr(app("sbase", a)), types.Typ[types.Bool]
+		}
+		return fr(a), types.Typ[types.Bool]
 	case "toAny": // the interface value holding x
 		a, ty := v.tr(x.Args[0], env)
 		if _, ok := ty.Underlying().(*types.Interface); ok {
@@ -754,6 +777,9 @@ func (v *fnVC) trCall(x *CallE, env *Env) (T, types.Type) {
 			sorts = append(sorts, v.P.sortOf(ty))
 		}
 		return app(v.dynFn(n, sorts, v.P.sortOf(rt)), as...), rt
+	case "ctxof", "metaof": // the context / metadata currently stored in the value (read off the heap per dynamic type)
+		a, aty := v.tr(x.Args[0], env)
+		return v.valueAttr(a, aty, x.Fun == "ctxof", env)
 	case "asmap": // asmap(x): the map[string]interface{} held by the interface value x
 		a, _ := v.tr(x.Args[0], env)
 		return app("ipay", a), types.NewMap(types.Typ[types.String], types.NewInterfaceType(nil, nil))
@@ -809,4 +835,36 @@ func typeExprString(e Expr) string {
 		}
 	}
 	return ""
+}
+
+// valueAttr reads the context (or metadata pointer) of a ucfg value through its dynamic type.
+func (v *fnVC) valueAttr(a T, aty types.Type, wantCtx bool, env *Env) (T, types.Type) {
+	pkg := v.e.typesPkg(modPrefix)
+	look := func(n string) types.Type { return pkg.Scope().Lookup(n).Type() }
+	prim := look("cfgPrimitive")
+	primN, primSt, _ := v.isModStruct(prim)
+	cfgN, cfgSt, _ := v.isModStruct(look("Config"))
+	fname, cfgField := "ctx", "ctx"
+	if !wantCtx {
+		fname, cfgField = "metadata", "metadata"
+	}
+	_, fty := findField(primSt, fname)
+	_ = cfgSt
+	snap := v.snapshot(env)
+	sort := v.P.sortOf(fty)
+	unk := "attr_unknown_" + fname
+	v.P.add(unk, fmt.Sprintf("(declare-fun %s (Iface) %s)", unk, sort))
+	res := app(unk, a)
+	for _, tn := range []string{"cfgDynamic", "cfgNil", "cfgString", "cfgFloat", "cfgUint", "cfgInt", "cfgBool"} {
+		n, _, _ := v.isModStruct(look(tn))
+		tag := intLit(int64(v.P.tag(types.NewPointer(look(tn)))))
+		addr := v.fieldAddr(primN, fname, v.fieldAddr(n, "cfgPrimitive", app("ipay", a)))
+		res = ite(eq(app("itag", a), tag), v.loadAt(addr, fty, snap), res)
+	}
+	subT := look("cfgSub")
+	subN, _, _ := v.isModStruct(subT)
+	tag := intLit(int64(v.P.tag(subT)))
+	c := app(structName(subN)+"_c", app("un"+v.boxFn(subT), app("ipay", a)))
+	res = ite(eq(app("itag", a), tag), v.loadAt(v.fieldAddr(cfgN, cfgField, c), fty, snap), res)
+	return res, fty
 }
